@@ -54,4 +54,7 @@ def run(tier):
             ck.sample(dict(input=ec.inputs["f" if fal else "i"], conversion=e["conv"], source=e["src"], got=e["got"]))
     ck.extra["programs"] = n
     ck.extra["rustc_rejected_programs"] = len(rejected)
+    if tier == "thorough":
+        from vlib import cov
+        cov.report(ck, "C02", cov.derive_inputs([x for sc in specs.values() for x in sc.inputs.values()]))
     return ck.finish()
